@@ -704,3 +704,62 @@ func TestVC03Uniform(t *testing.T) {
 		t.Fatalf("SELFTEST-FAIL DeriveUniform: the class 'lanes finish in different SHAKE blocks' is empty after %d calls", rounds)
 	}
 }
+
+// ---------------------------------------------------------------------------
+// generic vs AVX2 on many random polynomials of the documented input domain
+// (|coefficient| <= q). The lazy reductions inside InvNTT only matter for rare
+// sign patterns, so this differential sweep uses far more inputs than the
+// comparison with the (slow) defining sums above.
+
+func TestVC03BackendDiff(t *testing.T) {
+	defer vlib.Done()
+	if !cpu.X86.HasAVX2 {
+		vlib.Note("C03 white-box: AVX2 not available in this process; generic-vs-AVX2 differential sweep skipped")
+		t.Skip("no AVX2")
+	}
+	defer func() { cpu.X86.HasAVX2 = true }()
+	sub := "wb/generic-vs-avx2"
+	rounds := vlib.N(150000, 1000000)
+	buf := make([]byte, 512)
+	for r := 0; r < rounds; r++ {
+		vlib.ExpandInto(buf, uint64(vlib.Seed)<<44^uint64(vlib.Shard)<<36^uint64(r))
+		var a Poly
+		for i := range a {
+			v := int(buf[2*i]) | int(buf[2*i+1])<<8
+			switch r % 4 {
+			case 0:
+				a[i] = int16(v%(2*vc03Q+1) - vc03Q)
+			case 1:
+				a[i] = int16(vc03Q * (1 - 2*(v&1)))
+			case 2:
+				a[i] = int16(vc03Q * (v%3 - 1))
+			case 3:
+				a[i] = int16(v % (vc03Q + 1))
+			}
+		}
+		g, v := a, a
+		cpu.X86.HasAVX2 = false
+		g.InvNTT()
+		cpu.X86.HasAVX2 = true
+		v.Tangle()
+		v.InvNTT()
+		gn, vn := a, a
+		cpu.X86.HasAVX2 = false
+		gn.NTT()
+		cpu.X86.HasAVX2 = true
+		vn.NTT()
+		vn.Detangle()
+		for i := range a {
+			if g[i] > vc03Q || g[i] < -vc03Q || v[i] > vc03Q || v[i] < -vc03Q || vc03Mod(int64(g[i])) != vc03Mod(int64(v[i])) {
+				vlib.ReportDirect(t, "C03/wb/InvNTT/generic-vs-avx2", fmt.Sprintf("input kind %d round %d: coefficient %d is %d (generic) vs %d (AVX2); documented: equal mod q and in [-q,q]", r%4, r, i, g[i], v[i]), map[string]interface{}{"r": r, "seed": vlib.Seed, "shard": vlib.Shard})
+				return
+			}
+			if gn[i] > 7*vc03Q || gn[i] < -7*vc03Q || vn[i] > 7*vc03Q || vn[i] < -7*vc03Q || vc03Mod(int64(gn[i])) != vc03Mod(int64(vn[i])) {
+				vlib.ReportDirect(t, "C03/wb/NTT/generic-vs-avx2", fmt.Sprintf("input kind %d round %d: coefficient %d is %d (generic) vs %d (AVX2); documented: equal mod q and in [-7q,7q]", r%4, r, i, gn[i], vn[i]), map[string]interface{}{"r": r, "seed": vlib.Seed, "shard": vlib.Shard})
+				return
+			}
+		}
+	}
+	vlib.EvalN(sub, int64(rounds))
+	vlib.ClassN(sub, "random polynomials with |coefficient| <= q (4 distributions)", int64(rounds))
+}
